@@ -94,8 +94,29 @@ def build(case):
         for sur in case.rng.sample(cands, min(len(cands), 2)):
             sur.flag = case.rng.choice(['*', '+'])
         deck.tags.add('bc.flags')
+    renumber_outside(deck, case.rng)
     deck.cli = list(deck.cli) + random_options(case.rng)
     return deck
+
+
+def renumber_outside(deck, rng):
+    '''Give the zero-importance outside-world cell (900 in every generator)
+    a number just above the largest other cell: helper volumes and generated
+    cells are numbered from there on.'''
+    if rng.random() < 0.5:
+        return
+    others = [c.id for c in deck.cells if c.id != 900]
+    if not others or 900 not in [c.id for c in deck.cells]:
+        return
+    for cel in deck.cells:
+        if any(ref_ == 900 for ref_ in M.expr_cellrefs(cel.geom)):
+            return
+    new_id = max(others) + rng.choice([1, 2, 2, 3, 4, 6, 9])
+    if new_id in others:
+        return
+    deck.cell(900).id = new_id
+    lat = [c for c in deck.cells if c.lat]
+    deck.tags.add('outside-just-above')
 
 
 def classify(rule, msg, deck):
